@@ -329,8 +329,115 @@ func c04Witnesses(c *Ctx) {
 	}
 }
 
+const c04CondModel = `[request_definition]
+r = sub, obj, act
+[policy_definition]
+p = sub, obj, act
+[role_definition]
+g = _, _, (_, _)
+[policy_effect]
+e = some(where (p.eft == allow))
+[matchers]
+m = g(r.sub, p.sub) && r.obj == p.obj && r.act == p.act
+`
+
+// conditional role definitions (g = _, _, (_, _)): link condition functions and their parameters
+// are "registered functions" of the statement.  Histories of Enforce / AddNamedLinkConditionFunc /
+// SetNamedLinkConditionFuncParams / batch additions (the single-rule calls are F04) on one live
+// enforcer; after every step every decision must equal that of an enforcer that was given the
+// same rules, functions and parameters BEFORE its first Enforce.
+func c04Conditional(c *Ctx) {
+	nh := 60
+	if c.Thorough() {
+		nh = 1500
+	}
+	flag := func(args ...string) (bool, error) { return len(args) != 0 && args[0] == "on", nil }
+	links := [][]string{{"alice", "admin"}, {"bob", "admin"}, {"admin", "root"}}
+	type reg struct {
+		u, r  string
+		param string
+	}
+	for h := 0; h < nh; h++ {
+		build := func(regs []reg, listed [][]string) *casbin.Enforcer {
+			mm, _ := model.NewModelFromString(c04CondModel)
+			e, _ := casbin.NewEnforcer(mm)
+			_, _ = e.AddPolicy("admin", "data1", "read")
+			_, _ = e.AddPolicy("root", "data2", "read")
+			if len(listed) > 0 {
+				_, _ = e.AddGroupingPolicies(listed)
+			}
+			for _, x := range regs {
+				e.AddNamedLinkConditionFunc("g", x.u, x.r, flag)
+				e.SetNamedLinkConditionFuncParams("g", x.u, x.r, x.param)
+			}
+			return e
+		}
+		ask := func(e *casbin.Enforcer) string {
+			var b strings.Builder
+			for _, s := range []string{"alice", "bob", "admin"} {
+				for _, o := range []string{"data1", "data2"} {
+					ok, err := e.Enforce(s, o, "read")
+					if err != nil {
+						b.WriteString("e")
+					} else {
+						b.WriteString(B(ok))
+					}
+				}
+			}
+			return b.String()
+		}
+		var regs []reg
+		var listed [][]string
+		live := build(nil, nil)
+		var trace []string
+		id := fmt.Sprintf("c04.cond.%d", h)
+		n := 3 + c.Rng.Intn(8)
+		for i := 0; i < n; i++ {
+			_ = ask(live)
+			switch c.Rng.Intn(3) {
+			case 0:
+				var batch [][]string
+				for _, l := range links {
+					r := []string{l[0], l[1], "_", "_"}
+					if c.Rng.Intn(2) == 0 && !containsRule(listed, r) {
+						batch = append(batch, r)
+					}
+				}
+				if len(batch) > 0 {
+					_, _ = live.AddGroupingPolicies(batch)
+					listed = append(listed, batch...)
+					trace = append(trace, fmt.Sprint("addg-batch", batch))
+				}
+			default:
+				l := links[c.Rng.Intn(len(links))]
+				param := []string{"on", "off"}[c.Rng.Intn(2)]
+				if !containsRule(listed, []string{l[0], l[1], "_", "_"}) {
+					continue // a condition on a link that does not exist: nothing to observe
+				}
+				live.AddNamedLinkConditionFunc("g", l[0], l[1], flag)
+				live.SetNamedLinkConditionFuncParams("g", l[0], l[1], param)
+				var out []reg
+				for _, x := range regs {
+					if x.u != l[0] || x.r != l[1] {
+						out = append(out, x)
+					}
+				}
+				regs = append(out, reg{l[0], l[1], param})
+				trace = append(trace, fmt.Sprint("cond", l, param))
+			}
+			fresh := build(regs, listed)
+			if got, want := ask(live), ask(fresh); got != want {
+				c.Direct(id, "conditional role links: decisions differ from an enforcer given the same rules, link condition functions and parameters before its first Enforce", fmt.Sprintf("trace=%v got=%s fresh=%s", trace, got, want))
+				break
+			}
+		}
+		c.Count("conditional-history")
+	}
+}
+
 func c04Wide(c *Ctx) {
 	c04Witnesses(c)
+	c04Conditional(c)
 	nh := 150
 	if c.Thorough() {
 		nh = 4000
